@@ -1,7 +1,9 @@
 /-
 Model of asmjit/core/codewriter.cpp (`CodeWriterUtils::encode_offset32`, `encode_offset64`,
-`write_offset`), asmjit/core/emitterutils_p.h (`is_encodable_offset_32/64`) and the
-`OffsetFormat` record of asmjit/core/fixup.h.  Written line by line after the C++; the order of the
+`write_offset`), asmjit/core/emitterutils_p.h (`is_encodable_offset_32/64`), asmjit/arm/armutils.h
+(`encode_aarch32_imm`), the direct displacement path `EmitOp_DispImm` of asmjit/arm/a64assembler.cpp and the
+`OffsetFormat` record of asmjit/core/fixup.h.  The Thumb branch formats follow the code as repaired by
+fixes/C17-1.patch (J1/J2 bits).  Written line by line after the C++; the order of the
 range tests and the 32/64-bit truncations are the C++ ones.  Core-only imports (the driver links it).
 
 Types are spelled `BitVec 64` / `BitVec 32` literally (bv_decide does not see through abbrevs).
@@ -56,6 +58,36 @@ def isEncodableOffset64 (x : BitVec 64) (numBits : Nat) : Bool :=
 /-- `Support::is_int_n<32>(int64_t)`. -/
 def isInt32 (x : BitVec 64) : Bool := (x.truncate 32).signExtend 64 == x
 
+/-- `Support::ctz(uint32_t)` (= `__builtin_ctz`, undefined for 0; the only call site guards it) as a 5-step binary
+search so that bit-blasting sees it; 31 for x = 0 (never used). -/
+def ctz32 (x0 : BitVec 32) : BitVec 32 :=
+  let n0 := if x0 &&& 0xFFFF#32 == 0#32 then 16#32 else 0#32
+  let x1 := x0 >>> n0
+  let n1 := if x1 &&& 0xFF#32 == 0#32 then 8#32 else 0#32
+  let x2 := x1 >>> n1
+  let n2 := if x2 &&& 0xF#32 == 0#32 then 4#32 else 0#32
+  let x3 := x2 >>> n2
+  let n3 := if x3 &&& 0x3#32 == 0#32 then 2#32 else 0#32
+  let x4 := x3 >>> n3
+  let n4 := if x4 &&& 0x1#32 == 0#32 then 1#32 else 0#32
+  n0 + n1 + n2 + n3 + n4
+
+/-- `Support::ror(uint32_t v, n)`, n < 32.  The C++ computes `(v >> n) | (v << (32 - n))`, which for n = 0 shifts by
+the type width (undefined; fixes/C17-2.patch masks the count).  The model is the rotation. -/
+def ror32 (v n : BitVec 32) : BitVec 32 := (v >>> n) ||| (v <<< ((32#32 - n) &&& 31#32))
+
+/-- `arm::Utils::encode_aarch32_imm(imm, out)` (armutils.h) on a 32-bit value: the A32 "modified immediate"
+`rot4:imm8` with `value = ROR(imm8, 2*rot4)`. -/
+def encodeAArch32Imm (v0 : BitVec 32) : Option (BitVec 32) :=
+  if v0.ule 0xFF#32 then some v0 else
+  let rotated := (v0 &&& 0xFF0000FF#32) != 0#32
+  let v1 := if rotated then ror32 v0 16#32 else v0
+  let r0 : BitVec 32 := if rotated then 16#32 else 0#32
+  let n := ctz32 v1 &&& ~~~1#32
+  let r := (r0 - n) &&& 0x1E#32
+  let v := ror32 v1 n
+  if !(v.ule 0xFF#32) then none else some (v ||| (r <<< 7))
+
 /-- First half of `encode_offset32`: the range tests.  Returns `(value, u)` or `none`. -/
 def encode32Value (f : OffsetFormat) (off0 : BitVec 64) : Option (BitVec 32 × BitVec 32) :=
   if f.bitCount = 0 ∨ f.bitCount > f.valueSize * 8 then none else
@@ -98,16 +130,21 @@ def encodeOffset32 (f : OffsetFormat) (off : BitVec 64) : Option (BitVec 32) :=
       let ic := (value &&& 0x800000#32) <<< (26 - 23)
       let ja := ((~~~value >>> 23) ^^^ (value >>> 22)) &&& 1#32
       let jb := ((~~~value >>> 23) ^^^ (value >>> 21)) &&& 1#32
-      some (ia ||| ib ||| ic ||| (ja <<< 14) ||| (jb <<< 11))
+      some (ia ||| ib ||| ic ||| (ja <<< 13) ||| (jb <<< 11))   -- J1 = bit 13 (fixes/C17-1.patch; the pinned tree says 14)
     | .thumb32BCond =>
       if f.valueSize ≠ 4 ∨ f.bitCount ≠ 20 ∨ f.bitShift ≠ 0 then none else
       let ia := value &&& 0x0007FF#32
       let ib := (value &&& 0x01F800#32) <<< (16 - 11)
       let ic := (value &&& 0x080000#32) <<< (26 - 19)
-      let ja := ((~~~value >>> 19) ^^^ (value >>> 22)) &&& 1#32
-      let jb := ((~~~value >>> 19) ^^^ (value >>> 21)) &&& 1#32
-      some (ia ||| ib ||| ic ||| (ja <<< 14) ||| (jb <<< 11))
-    | .a32Adr => none  -- `encode_aarch32_imm` is not modelled (no compiled backend uses this format)
+      -- fixes/C17-1.patch: B<cond> T3 carries J1 = imm<17>, J2 = imm<18> directly (the pinned tree computes
+      -- `(~value >> 19) ^ (value >> 22|21)`, which is constantly 1, and stores J1 at bit 14)
+      let ja := (value >>> 17) &&& 1#32
+      let jb := (value >>> 18) &&& 1#32
+      some (ia ||| ib ||| ic ||| (ja <<< 13) ||| (jb <<< 11))
+    | .a32Adr =>
+      match encodeAArch32Imm value with
+      | none => none
+      | some enc => some ((0x400000#32 <<< u) ||| (enc <<< f.bitShift))   -- `bit_mask(22) << u`: U=1 -> ADD (bit 23), U=0 -> SUB (bit 22)
     | .a32U23Signed => some ((value <<< f.bitShift) ||| (u <<< 23))
     | .a32U23Split =>
       if f.valueSize ≠ 4 ∨ f.bitCount ≠ 8 ∨ f.bitShift ≠ 0 then none else
@@ -141,6 +178,19 @@ def encodeOffset64 (f : OffsetFormat) (off1 : BitVec 64) : Option (BitVec 64) :=
     match f.type with
     | .signed => some ((off2 &&& lsbMask64 f.bitCount) <<< f.bitShift)
     | _ => none
+
+/-- `EmitOp_DispImm` of asmjit/arm/a64assembler.cpp: the DIRECT path of the AArch64 assembler (label bound in the
+current section, or an absolute target with a known base address) packs the displacement into the opcode without
+going through `write_offset`.  Returns the bits OR-ed into the opcode, `none` = `kInvalidDisplacement`. -/
+def dispImmDirect (f : OffsetFormat) (off : BitVec 64) : Option (BitVec 32) :=
+  if (off &&& (lsbMask32 f.discard).zeroExtend 64) != 0#64 then none else
+  let disp64 := off.sshiftRight f.discard
+  if !isEncodableOffset64 disp64 f.bitCount then none else
+  let disp32 : BitVec 32 := (disp64 &&& (lsbMask32 f.bitCount).zeroExtend 64).truncate 32
+  match f.type with
+  | .signed => some (disp32 <<< f.bitShift)
+  | .a64Adr | .a64Adrp => some (((disp32 &&& 3#32) <<< 29) ||| ((disp32 >>> 2) <<< 5))
+  | _ => none
 
 /-! ### Buffers: little-endian unaligned loads and stores (`Support::loadu_*_le/storeu_*_le`). -/
 
